@@ -44,9 +44,6 @@ RULE = ("DFS enumeration of ALL legal command lists up to the tier's length over
         "sub-alphabets; implementation + oracle run on every list, the Coq model on every list up to length 4, every "
         "random list and (thorough) a seeded 15% sample of the longer enumerated ones; distinct = distinct command lists")
 
-K_KEYERR = "get_last_formula:KeyError:soft-goal-created-and-popped-without-intervening-push"
-K_STRICT = "get_strict_formula:assert-before-reset-assertions-still-reported"
-
 # ---------------------------------------------------------------------------------------
 # the independent oracle: SMT-LIB assertion stack
 # ---------------------------------------------------------------------------------------
@@ -580,7 +577,6 @@ def coq_trace(tr):
 HDR = """From Coq Require Import List Arith Bool.
 From PySMT.core Require Import CaseUtil.
 From PySMT.models Require Import AssertStack StackPrims Script TrackSolver.
-From PySMT.proofs Require Import Script_proofs.
 Import ListNotations.
 Fixpoint leqb {A} (e : A -> A -> bool) (a b : list A) : bool :=
   match a, b with [], [] => true | x :: a', y :: b' => e x y && leqb e a' b' | _, _ => false end.
@@ -603,14 +599,9 @@ Definition tst_eqb (a b : tst nat) : bool :=
   leqb Nat.eqb (astk a) (astk b) && leqb Nat.eqb (bpts a) (bpts b) && Bool.eqb (pending a) (pending b).
 """
 
-SCRIPT_TAIL = """(* also: the side condition `safe` of C16_script_last_formula_total_when_safe is exact on legal lists *)
-Definition ok (c : list (cmd nat nat) * result (list nat * list (cgoal nat nat)) * result (list nat)) : bool :=
+SCRIPT_TAIL = """Definition ok (c : list (cmd nat nat) * result (list nat * list (cgoal nat nat)) * result (list nat)) : bool :=
   let '(cs, e1, e2) := c in
-  res_eqb last_eqb (get_last_formula cs) e1 && res_eqb (leqb Nat.eqb) (get_strict_formula cs) e2 &&
-  match s_run s_init cs with
-  | Some _ => Bool.eqb (safe s_init false cs) (match e1 with Ok _ => true | Err _ => false end)
-  | None => true
-  end.
+  res_eqb last_eqb (get_last_formula cs) e1 && res_eqb (leqb Nat.eqb) (get_strict_formula cs) e2.
 Eval vm_compute in mismatches ok cases.
 """
 SOLVER_TAIL = """Definition ok (c : list (scmd nat) * list (result (tst nat))) : bool :=
@@ -652,8 +643,8 @@ def check_script(chk, tokens, last, strict, seen_keys):
     n = 0
     exp = {"assertions": ra, "goals": rg}
     if last[0] == "err":
-        key = K_KEYERR if (last[1] == "KeyError" and fresh) else "last:%s" % tok_str(tokens)
-        if key not in seen_keys:
+        key = "last:%s" % tok_str(tokens)
+        if key not in seen_keys and len(seen_keys) < 40:
             seen_keys.add(key)
             n += chk.violation({"kind": "history", "target": "script", "history": tokens,
                                 "what": "get_last_formula raises %s on a legal script" % last[1],
@@ -668,8 +659,7 @@ def check_script(chk, tokens, last, strict, seen_keys):
                                 "expected": exp, "observed": {"assertions": last[1], "goals": last[2]},
                                 "oracle": "RefStack (SMT-LIB assertion stack)", "repro": script_repro(tokens)}, key=key)
     if strict[0] == "ok" and strict[1] != ra:
-        all_asserts = [t[1] for t in tokens if t[0] == "assert"]
-        key = K_STRICT if (abr and strict[1] == all_asserts) else "strict:%s" % tok_str(tokens)
+        key = "strict:%s" % tok_str(tokens)
         if key not in seen_keys and len(seen_keys) < 40:
             seen_keys.add(key)
             n += chk.violation({"kind": "history", "target": "script", "history": tokens,
@@ -745,6 +735,15 @@ def run(tier):
     lib.clean_cases(chk.dir)
     I = Impl()
 
+    # ---------------- corpus of earlier minimised failures: must pass ------------------
+    seen = set()
+    corpus = json.load(open(os.path.join(os.path.dirname(os.path.abspath(__file__)), "corpus", "c16.json")))
+    for ent in corpus:
+        toks = [tuple(t) for t in ent["tokens"]]
+        check_script(chk, toks, I.last_formula(toks), I.strict_formula(toks), seen)
+        chk.count(("corpus", ent["name"]))
+    chk.cov["corpus"] = {"entries": len(corpus), "failing": len(seen)}
+
     maxlen = 4 if tier == "quick" else 5
     nrand = 1500 if tier == "quick" else 20000
     # ---------------- scripts ---------------------------------------------------------
@@ -760,7 +759,7 @@ def run(tier):
     # the longer enumerated ones; the implementation + oracle side runs on all of them
     rsel = random.Random(chk.seed + 1)
     frac = 1.0 if tier == "quick" else 0.15
-    rows, seen, sel = [], set(), []
+    rows, sel = [], []
     nlegal = 0
     for idx, toks in enumerate(lists):
         last, strict = I.last_formula(toks), I.strict_formula(toks)
